@@ -96,6 +96,7 @@ func NewClientWithLogger(
 		nil,
 		false,
 		nil,
+		sync.RWMutex{},
 	}
 }
 
@@ -133,6 +134,7 @@ type client struct {
 	handingOver                      chan<- schema.Input // The signal channel the read loop is sending on right now.
 	closeHandedOver                  bool                // The read loop closes that channel once the send is over.
 	streamError                      error               // Why nothing the plugin sends can be trusted any more; nil while it can.
+	startMutex                       sync.RWMutex        // Read-held while a run is registered and its work start written; Close takes it before the client done message.
 }
 
 func (c *client) sendCBOR(message any) error {
@@ -227,10 +229,32 @@ func (c *client) Execute(
 		return NewErrorExecutionResult(fmt.Errorf("failed to encode work start message (%w)", err))
 	}
 	workStartMsg = cbor.RawMessage(encodedWorkStart)
-	// Setup channels for ATP v2
-	err = c.prepareResultChannels(cborReader, stepData, signalsFromStep)
+	// From the registration of the run until its work start is out, Close must not tell the peer that the client is
+	// done: a peer that has been told so reads nothing more, the work start would fail, and the read loop that was
+	// started for the run would wait for a message that never comes - and Close for the read loop.
+	c.startMutex.RLock()
+	err = c.startRun(cborReader, stepData, workStartMsg, signalsFromStep, signalsToStep)
+	c.startMutex.RUnlock()
 	if err != nil {
 		return NewErrorExecutionResult(err)
+	}
+	c.logger.Debugf("Step '%s' started, waiting for response...", stepData.ID)
+
+	return c.getResultV2(stepData)
+}
+
+// startRun registers the run, writes its work start and starts the goroutine that forwards the caller's signals.
+func (c *client) startRun(
+	cborReader *cbor.Decoder,
+	stepData schema.Input,
+	workStartMsg any,
+	signalsFromStep chan<- schema.Input,
+	signalsToStep <-chan schema.Input,
+) error {
+	// Setup channels for ATP v2
+	err := c.prepareResultChannels(cborReader, stepData, signalsFromStep)
+	if err != nil {
+		return err
 	}
 	if err := c.sendCBOR(workStartMsg); err != nil {
 		c.logger.Errorf("Step '%s' failed to write start work message: %v", stepData.ID, err)
@@ -252,9 +276,8 @@ func (c *client) Execute(
 			}
 		}
 		c.mutex.Unlock()
-		return NewErrorExecutionResult(fmt.Errorf("failed to write work start message (%w)", err))
+		return fmt.Errorf("failed to write work start message (%w)", err)
 	}
-	c.logger.Debugf("Step '%s' started, waiting for response...", stepData.ID)
 	// Handle signals to the step. Only now that the work start is out: a signal written before it is refused by the
 	// peer as a signal for an unknown run, and is lost. The goroutine was counted in when the run was registered.
 	if signalsToStep == nil {
@@ -265,8 +288,7 @@ func (c *client) Execute(
 			c.executeWriteLoop(stepData.RunID, signalsToStep)
 		}()
 	}
-
-	return c.getResultV2(stepData)
+	return nil
 }
 
 // executeLegacy runs a step over ATP v1 (also assumed for a peer whose hello message was never read). Legacy replies
@@ -304,11 +326,14 @@ func (c *client) Close() error {
 	// Now tell the server we're done.
 	// Send the client done message
 	if c.atpVersion > 1 {
+		// Not in between the registration of a run and its work start: see Execute.
+		c.startMutex.Lock()
 		err := c.sendCBOR(RuntimeMessage{
 			MessageTypeClientDone,
 			"",
 			clientDoneMessage{},
 		})
+		c.startMutex.Unlock()
 		if err != nil {
 			// add a timeout to the wait to prevent it from causing a deadlock.
 			// 5 seconds is arbitrary, but gives it enough time to exit.
